@@ -429,6 +429,10 @@ def extract_variants(ctx, a, files, rnd):
         {"opt": "names", "args": ["--"] + shuf, "expect": shuf, "specials": False},
         {"opt": "names+missing", "args": ["--threads", "4", "--"] + withmiss, "expect": None, "must_fail": True},
         {"opt": "names+missing-skip-errors", "args": ["--skip-errors", "--"] + withmiss, "expect": sub, "specials": False, "may_fail": True},
+        # the same requests through a patch chain (the archive once more as its own patch; after C20-r7m2)
+        {"opt": "names-chain", "args": ["--patch", a["path"], "--"] + shuf, "expect": shuf, "specials": False},
+        {"opt": "names+missing-chain", "args": ["--patch", a["path"], "--"] + withmiss, "expect": None, "must_fail": True},
+        {"opt": "names+missing-chain-skip-errors", "args": ["--patch", a["path"], "--skip-errors", "--"] + withmiss, "expect": sub, "specials": False, "may_fail": True},
         {"opt": "file-type", "args": ["--file-type", ft.upper()], "expect": [n for n in names if n.lower().endswith(ft.lower())], "specials": True},
     ]
     return v
